@@ -20,7 +20,8 @@
  *               ".well-known/core" at most once (libcoap documents that it is skipped)
  *   filter:*    with a filter the listed set is exactly the resources passing the RFC 6690 4.1 reference
  *               filter; cases the RFC leaves open (RL_UNSPEC) are not compared
- *               signature filter:<href|rt|if|rel|other>:<exact|prefix>[-no-leading-slash][-token][-unquoted]:<missed|overmatch>
+ *               signature filter:<href|rt|if|rel|other>:<exact|prefix>[-no-leading-slash][-token][-unquoted][-pct]:<missed|overmatch>
+ *               (-pct: the search value holds a byte that must be percent-encoded in a URI query)
  *   window:*    bytes written == full[offset, offset+buflen) cut to [0,L); length bits of the status ==
  *               number of bytes written; *buflen on return == L (the total length; the header comment says
  *               both "bytes actually written" and "length of the well-known response" -- the property
@@ -61,7 +62,7 @@ static const struct rl_res CAT[] = {
     {WKC, 1, {{"rt", "\"x\""}}, 0, 0},
     {"ab", 2, {{"rt", "\"xy\""}, {"if", "\"i j\""}}, 0, 0},
     {"e", 3, {{"rt", "\"y x\""}, {"ct", "40"}, {"rel", "\"s\""}}, 0, 0},
-    {"f/g/h", 1, {{"if", "\"i\""}}, 1, 0},
+    {"f/g/h", 2, {{"if", "\"i\""}, {"rt", "\"u#v\""}}, 1, 0}, /* ext-rel-type (a URI) with a character that needs %-encoding in a query */
     {"g", 6, {{"rt", "\"x\""}, {"if", "i"}, {"rel", "s"}, {"ct", "40"}, {"title", "\"t t\""}, {"sz", "10"}}, 1, 1},
 };
 #define NCAT ((int)(sizeof CAT / sizeof CAT[0]))
@@ -72,6 +73,8 @@ static const char *const FILTERS[] = {
     "if=i",      "rel=s",    "ct=40",       "unknown=1", "rt",  "=x",     "rt=",
     /* a few more of the same kinds */
     "rt=xy",     "rt=y*",    "if=i*",       "rel=r*", "href=/a/b", "href=/sensors/*", "ct=4*", "ct=4",
+    /* Complete Value String with a byte that travels percent-encoded in a URI (the option carries it decoded) */
+    "rt=u#v",
 };
 #define NFILTERS ((int)(sizeof FILTERS / sizeof FILTERS[0]))
 
@@ -391,7 +394,13 @@ static void
 filter_sig(char *sig, size_t siglen, const struct rl_query *Q, const struct rl_res *m, const char *dir) {
   const char *nm = Q->is_href ? "href" : Q->is_reltypes ? Q->name : "other";
   int noslash = Q->is_href && Q->val[0] != '/';
-  int multi = 0, unq = 0;
+  int multi = 0, unq = 0, pct = 0;
+  /* bytes outside RFC 3986 query = *( unreserved / sub-delims / ":" / "@" / "/" / "?" ) need %-encoding in a URI */
+  for (size_t i = 0; i < Q->vlen; i++) {
+    int c = Q->val[i];
+    if (!((c >= 'a' && c <= 'z') || (c >= 'A' && c <= 'Z') || (c >= '0' && c <= '9') || (c && strchr("-._~!$&'()*+,;=:@/?", c))))
+      pct = 1;
+  }
   if (!Q->is_href)
     for (int i = 0; i < m->nattr; i++)
       if (strcmp(m->attr[i].name, Q->name) == 0 && m->attr[i].value) {
@@ -399,8 +408,8 @@ filter_sig(char *sig, size_t siglen, const struct rl_query *Q, const struct rl_r
         unq = m->attr[i].value[0] != '"';
         break;
       }
-  snprintf(sig, siglen, "filter:%s:%s%s%s%s:%s", nm, Q->prefix ? "prefix" : "exact", noslash ? "-no-leading-slash" : "",
-           multi ? "-token" : "", unq ? "-unquoted" : "", dir);
+  snprintf(sig, siglen, "filter:%s:%s%s%s%s%s:%s", nm, Q->prefix ? "prefix" : "exact", noslash ? "-no-leading-slash" : "",
+           multi ? "-token" : "", unq ? "-unquoted" : "", pct ? "-pct" : "", dir);
 }
 
 static void
